@@ -502,6 +502,14 @@ file_error:
         goto file_error;
     }
 
+    /* xmalloc() takes an unsigned int: a larger file would get a block
+     * sized by the low bits of its length. */
+    if (sbuf.st_size > INT_MAX) {
+        parse->c_function = "fstat";
+        errno = EFBIG;
+        goto file_error;
+    }
+
     data = xmalloc(sbuf.st_size + 2);
     /* An empty file is a valid (empty) configuration, not a short read. */
     nbr = sbuf.st_size ? fread(data, sbuf.st_size, 1, file) : 1;
